@@ -3,6 +3,7 @@
 //! A case is a space separated token list (every token can be deleted independently):
 //!   ka=os|off|<s>  D=<s>  T=<s>  wbs=<n>  q=<n>  hc=0|1          configuration
 //!   Q:<headlen>:<n|s<N>|c<n1>.<n2>…>:<hsteps|->:<N|Z|S<steps>|C<steps>>[:<csteps>]   one request
+//!       body kinds: n none, s<N> sized, c<..> chunked, x malformed (400 path), u upgrade request
 //!       hsteps: p q r a d m  t (poll the body once, never block)  w (join the consumer task)
 //!       csteps: r d (one step per `c` event)  A (wake-driven read-to-end: a task of its own)
 //!   R<k> RP RE RX RZ     read script (k bytes available / barrier / EOF / reset / silent for ever)
@@ -47,6 +48,10 @@ fn parse_req(tok: &str) -> Option<Req> {
     let head_len = p[1].parse::<usize>().ok()?;
     let body = if p[2] == "n" {
         ReqBody::None
+    } else if p[2] == "x" {
+        ReqBody::Bad
+    } else if p[2] == "u" {
+        ReqBody::Upgrade
     } else if let Some(n) = p[2].strip_prefix('s') {
         ReqBody::Sized(n.parse::<usize>().ok().filter(|n| *n > 0 && *n <= 400_000)?)
     } else if let Some(cs) = p[2].strip_prefix('c') {
@@ -297,6 +302,9 @@ fn run(line: &str) -> CaseResult {
         return CaseResult { output: "bad-case".into(), fail: None, nontrivial: false, tags: vec!["bad-case".into()] };
     };
     let log = &r.log;
+    if std::env::var_os("C04_DEBUG").is_some() {
+        eprintln!("accepted: {:?}", String::from_utf8_lossy(&log.accepted));
+    }
     // quiescence at every idle point: re-run up to the k-th idle point and poll once spuriously
     let n_idle = r.trace.iter().filter(|t| t.starts_with('I')).count();
     let mut lost: Option<(usize, String)> = None;
@@ -355,6 +363,15 @@ fn run(line: &str) -> CaseResult {
     if r.trace.iter().any(|t| t.starts_with('!')) {
         res.tags.push("fairness-delivery".into());
     }
+    if case.reqs.iter().any(|q| matches!(q.body, ReqBody::Bad)) {
+        res.tags.push("malformed-request".into());
+    }
+    if log.upgraded {
+        res.tags.push("upgraded".into());
+    }
+    if case.reqs.len() > 16 {
+        res.tags.push("pipeline>16".into());
+    }
     if log.wire_read > 131072 {
         res.tags.push("read-cap".into());
     }
@@ -367,8 +384,25 @@ fn run(line: &str) -> CaseResult {
             format!("at idle point {} (task Pending, not woken, waiters {}) a spurious poll makes progress: {}", k, r.trace.iter().filter(|t| t.starts_with('I')).nth(*k).cloned().unwrap_or_default(), what),
         );
     }
+    // ---- the upgrade service writes what it inherited from the dispatcher, then its marker
+    let mut wire_bytes: &[u8] = &log.accepted;
+    if log.upgraded {
+        if wire_bytes.ends_with(UPGRADE_MARKER) {
+            wire_bytes = &wire_bytes[..wire_bytes.len() - UPGRADE_MARKER.len()];
+        } else if matches!(r.outcome, Outcome::DoneOk) {
+            return res.fail("unflushed-at-done", "the upgraded connection finished Ok but its last bytes are not on the wire".to_owned());
+        } else {
+            // an aborted upgrade may have written a proper prefix of the marker
+            for k in (1..UPGRADE_MARKER.len()).rev() {
+                if wire_bytes.ends_with(&UPGRADE_MARKER[..k]) {
+                    wire_bytes = &wire_bytes[..wire_bytes.len() - k];
+                    break;
+                }
+            }
+        }
+    }
     // ---- oracle 1: every accepted byte belongs to exactly one response, in request order
-    let parsed = match parse_responses(&log.accepted) {
+    let parsed = match parse_responses(wire_bytes) {
         Ok(p) => p,
         Err(e) => return res.fail("bytes-garbled", e),
     };
@@ -397,6 +431,32 @@ fn run(line: &str) -> CaseResult {
             }
         } else if p.status != 0 && !p.body.is_empty() {
             return res.fail("bytes-garbled", format!("status {} with a body", p.status));
+        }
+    }
+    // ---- oracle 2a: a connection that ends by itself (Ok, or with the stream error of a
+    // malformed request) has written every response it generated completely, in particular the
+    // 4xx it answers the malformed request with
+    let parse_err = matches!(&r.outcome, Outcome::DoneErr(k) if k == "parse");
+    if matches!(r.outcome, Outcome::DoneOk) || parse_err {
+        for (k, p) in finals.iter().enumerate() {
+            if p.status != 200 && !p.complete {
+                return res.fail("unflushed-at-done", format!("connection finished but generated response {} (status {}) is truncated on the wire", k, p.status));
+            }
+        }
+        if parse_err {
+            match finals.last() {
+                Some(p) if (400..500).contains(&p.status) && p.complete => {}
+                _ => {
+                    return res.fail(
+                        "unflushed-at-done",
+                        format!("connection finished with a request parse error but the 4xx response is not on the wire ({} bytes accepted, {} responses)", wire_bytes.len(), finals.len()),
+                    )
+                }
+            }
+            let n200 = finals.iter().filter(|p| p.status == 200).count();
+            if n200 != log.responded.len() {
+                return res.fail("unflushed-at-done", format!("{} handlers responded, {} response heads on the wire when the parse error was returned", log.responded.len(), n200));
+            }
         }
     }
     // ---- oracle 2: completion ⇒ everything that was produced has been flushed
@@ -545,6 +605,7 @@ fn gen_req(rng: &mut Rng, i: usize, bodies: bool, big: bool) -> (String, usize) 
         ReqBody::None => "n".to_owned(),
         ReqBody::Sized(n) => format!("s{}", n),
         ReqBody::Chunked(v) => format!("c{}", v.iter().map(|n| n.to_string()).collect::<Vec<_>>().join(".")),
+        _ => unreachable!(),
     };
     let mut hs = String::new();
     let has_body = !matches!(body, ReqBody::None);
@@ -573,6 +634,7 @@ fn gen_req(rng: &mut Rng, i: usize, bodies: bool, big: bool) -> (String, usize) 
             ReqBody::None => 0,
             ReqBody::Sized(n) => *n,
             ReqBody::Chunked(v) => v.iter().map(|n| hexlen(*n) + 2 + n + 2).sum::<usize>() + 5,
+            _ => unreachable!(),
         };
     (format!("Q:{}:{}:{}:{}", hl, bs, hs, resp), wire_len)
 }
@@ -699,6 +761,7 @@ fn gen_backpressure(rng: &mut Rng) -> String {
         ReqBody::Sized(n) => format!("s{}", n),
         ReqBody::Chunked(v) => format!("c{}", v.iter().map(|n| n.to_string()).collect::<Vec<_>>().join(".")),
         ReqBody::None => "n".into(),
+        _ => unreachable!(),
     };
     let hs = *rng.pick(&["q", "qd", "qdq", "pd", "qr", "qrd", "qrq", "qa", "dq", "qq", "qrrd", "pqd", "qm", "mq", "qmq", "a", "d", "-"]);
     let cs = if hs.contains('m') { *rng.pick(&["d", "rd", "rrd", "r", "", "rrrrd", "rrrrrrrr", "rrrrrrrrrrrrrrrrd"]) } else { "" };
@@ -720,6 +783,7 @@ fn gen_backpressure(rng: &mut Rng) -> String {
             ReqBody::Sized(n) => *n,
             ReqBody::Chunked(v) => v.iter().map(|n| hexlen(*n) + 2 + n + 2).sum::<usize>() + 5,
             ReqBody::None => 0,
+            _ => unreachable!(),
         };
     if rng.chance(1, 3) {
         let (q2, wl) = gen_req(rng, 1, false, false);
@@ -787,6 +851,7 @@ fn gen_handover(rng: &mut Rng) -> String {
         ReqBody::Sized(n) => format!("s{}", n),
         ReqBody::Chunked(v) => format!("c{}", v.iter().map(|n| n.to_string()).collect::<Vec<_>>().join(".")),
         ReqBody::None => "n".into(),
+        _ => unreachable!(),
     };
     let hs = *rng.pick(&["rmw", "tmw", "rrmw", "trmw", "mw", "prmw", "rmqw", "tmwq", "rtmw", "qrmw", "rmw", "tmw"]);
     let cs = *rng.pick(&["A", "A", "Ad", "rA", "A"]);
@@ -802,6 +867,7 @@ fn gen_handover(rng: &mut Rng) -> String {
             ReqBody::Sized(n) => *n,
             ReqBody::Chunked(v) => v.iter().map(|n| hexlen(*n) + 2 + n + 2).sum::<usize>() + 5,
             ReqBody::None => 0,
+            _ => unreachable!(),
         };
     if rng.chance(1, 4) {
         let (q2, wl) = gen_req(rng, 1, false, false);
@@ -845,7 +911,217 @@ fn gen_handover(rng: &mut Rng) -> String {
     t.join(" ")
 }
 
+/// pipeline flavour: 17..40 tiny requests; the first handler usually waits so that the queue
+/// fills to MAX_PIPELINED_MESSAGES, the remaining requests arrive in a later read while the queue
+/// is full (they stay undecoded in read_buf), then all handlers are Ready at first poll (or
+/// Pending once) and the peer only waits / half-closes
+fn gen_pipeline(rng: &mut Rng) -> String {
+    let mut t: Vec<String> = Vec::new();
+    if rng.chance(1, 3) {
+        t.push("ka=5".into());
+    }
+    if rng.chance(1, 6) {
+        t.push("hc=0".into());
+    }
+    let n = rng.range(17, 40);
+    let mut lens = Vec::new();
+    for i in 0..n {
+        let hl = min_head_len(i, &ReqBody::None) + rng.below(8);
+        let hs = if i == 0 {
+            *rng.pick(&["q", "q", "q", "q", "qq", "qp", "-", "p"])
+        } else if rng.chance(1, 60) {
+            // rarely: a handler that is Pending once re-enters `poll_request` from `poll_response`
+            "p"
+        } else {
+            "-"
+        };
+        let resp = *rng.pick(&["Z", "Z", "N", "S3", "C2"]);
+        t.push(format!("Q:{}:n:{}:{}", hl, hs, resp));
+        lens.push(hl);
+    }
+    let total: usize = lens.iter().sum();
+    if rng.chance(1, 4) {
+        // everything in one read (the decode loop overshoots the limit: all requests are queued)
+    } else {
+        let lo = if rng.chance(1, 5) { 16 } else { 17 };
+        let k = rng.range(lo, 20).min(n - 1);
+        let first: usize = lens[..k].iter().sum();
+        t.push(format!("R{}", first));
+        t.push("RP".into());
+        if rng.chance(1, 4) {
+            let k2 = rng.range(k, n - 1);
+            let second: usize = lens[k..k2].iter().sum();
+            if second > 0 {
+                t.push(format!("R{}", second));
+                t.push("RP".into());
+            }
+        }
+    }
+    // the rest of the wire, then: silent peer / half-close after a pause / half-close at once /
+    // (nothing: EOF when the script is exhausted)
+    t.push(format!("R{}", total));
+    match rng.below(5) {
+        0 | 1 => t.push("RZ".into()),
+        2 => {
+            t.push("RP".into());
+            t.push("RE".into())
+        }
+        3 => t.push("RE".into()),
+        _ => {}
+    }
+    for _ in 0..rng.below(3) {
+        t.push(match rng.below(3) {
+            0 => "WP".into(),
+            1 => "FP".into(),
+            _ => format!("W{}", rng.range(1, 300)),
+        });
+    }
+    let n_ev = rng.below(5);
+    if n_ev > 0 {
+        let letters = "rrhhw";
+        let mut e: String = (0..n_ev).map(|_| letters.as_bytes()[rng.below(letters.len())] as char).collect();
+        if rng.chance(2, 3) {
+            e = format!("rh{}", e);
+        }
+        t.push(format!("E:{}", e));
+    }
+    t.join(" ")
+}
+
+/// write back-pressure script: barriers and small partial writes, flush barriers
+fn gen_backpressure_writes(rng: &mut Rng, t: &mut Vec<String>) {
+    for _ in 0..rng.range(1, 6) {
+        t.push(match rng.below(5) {
+            0 | 1 => "WP".into(),
+            2 => "FP".into(),
+            _ => format!("W{}", if rng.chance(1, 2) { rng.range(1, 40) } else { rng.range(1, 400) }),
+        });
+    }
+}
+
+/// error-path flavour: 0–2 ordinary requests, then something that is not a request (400) or a
+/// head that outgrows the read buffer (431), on a socket that does not take the whole error
+/// response at once: the stream error may only end the connection after everything is written
+fn gen_errpath(rng: &mut Rng) -> String {
+    let mut t: Vec<String> = Vec::new();
+    if rng.chance(1, 4) {
+        t.push("ka=5".into());
+    }
+    if rng.chance(1, 4) {
+        t.push("D=1".into());
+    }
+    if rng.chance(1, 5) {
+        t.push("hc=0".into());
+    }
+    if rng.chance(1, 4) {
+        t.push(format!("wbs={}", rng.pick(&[1usize, 64, 1000])));
+    }
+    let n = rng.below(3);
+    let mut wire = 0;
+    for i in 0..n {
+        let (q, wl) = gen_req(rng, i, false, false);
+        t.push(q);
+        wire += wl;
+    }
+    if rng.chance(1, 8) {
+        let hl = rng.range(131_100, 140_000);
+        t.push(format!("Q:{}:n:-:Z", hl));
+        wire += hl;
+    } else {
+        let hl = rng.range(1, 60);
+        t.push(format!("Q:{}:x:-:Z", hl));
+        wire += hl;
+    }
+    let mut left = wire;
+    for _ in 0..rng.below(3) {
+        if left == 0 {
+            break;
+        }
+        let k = rng.range(1, left);
+        t.push(format!("R{}", k));
+        left -= k;
+        t.push("RP".into());
+    }
+    t.push(format!("R{}", wire));
+    match rng.below(4) {
+        0 => t.push("RZ".into()),
+        1 => {
+            t.push("RP".into());
+            t.push("RE".into())
+        }
+        _ => {}
+    }
+    gen_backpressure_writes(rng, &mut t);
+    for _ in 0..rng.below(3) {
+        t.push("SP".into());
+    }
+    let n_ev = rng.below(6);
+    if n_ev > 0 {
+        let letters = "rrwwfhb";
+        let e: String = (0..n_ev).map(|_| letters.as_bytes()[rng.below(letters.len())] as char).collect();
+        t.push(format!("E:{}", e));
+    }
+    t.join(" ")
+}
+
+/// upgrade flavour: an upgrade request behind 0–2 ordinary requests under write back-pressure:
+/// the response bytes still buffered when the socket changes hands travel with it
+fn gen_upgrade(rng: &mut Rng) -> String {
+    let mut t: Vec<String> = Vec::new();
+    if rng.chance(1, 4) {
+        t.push(format!("wbs={}", rng.pick(&[1usize, 64, 1000])));
+    }
+    if rng.chance(1, 5) {
+        t.push("ka=5".into());
+    }
+    let n = rng.below(3);
+    let mut wire = 0;
+    for i in 0..n {
+        let (q, wl) = gen_req(rng, i, false, false);
+        t.push(q);
+        wire += wl;
+    }
+    let hl = min_head_len(n, &ReqBody::Upgrade) + rng.below(20);
+    t.push(format!("Q:{}:u:-:Z", hl));
+    wire += hl;
+    // nothing is sent behind the upgrade request: those bytes would belong to the upgraded
+    // protocol (the codec is in read-to-EOF mode from here on)
+    let mut left = wire;
+    for _ in 0..rng.below(3) {
+        if left == 0 {
+            break;
+        }
+        let k = rng.range(1, left);
+        t.push(format!("R{}", k));
+        left -= k;
+        t.push("RP".into());
+    }
+    t.push(format!("R{}", wire));
+    if rng.chance(1, 3) {
+        t.push("RZ".into());
+    }
+    gen_backpressure_writes(rng, &mut t);
+    let n_ev = rng.below(6);
+    if n_ev > 0 {
+        let letters = "rrwwfhb";
+        let e: String = (0..n_ev).map(|_| letters.as_bytes()[rng.below(letters.len())] as char).collect();
+        t.push(format!("E:{}", e));
+    }
+    t.join(" ")
+}
+
 fn gen(ctx: &Ctx) -> Vec<String> {
+    match std::panic::catch_unwind(std::panic::AssertUnwindSafe(|| gen_inner(ctx))) {
+        Ok(v) => v,
+        Err(e) => {
+            let msg = e.downcast_ref::<String>().cloned().or_else(|| e.downcast_ref::<&str>().map(|s| s.to_string())).unwrap_or_default();
+            eprintln!("c04 generator panicked: {}", msg);
+            std::process::exit(3);
+        }
+    }
+}
+
+fn gen_inner(ctx: &Ctx) -> Vec<String> {
     let mut rng = Rng::new(ctx.seed);
     let mut cases = Vec::new();
     let n = ctx.budget(2000);
@@ -858,7 +1134,12 @@ fn gen(ctx: &Ctx) -> Vec<String> {
             7 => 3,
             _ => 4,
         };
+        let dbg_state = rng.0;
+        let _ = dbg_state;
         cases.push(match flavour {
+            _ if i % 20 == 13 => gen_pipeline(&mut rng),
+            _ if i % 20 == 3 || i % 40 == 25 => gen_errpath(&mut rng),
+            _ if i % 20 == 8 || i % 40 == 15 => gen_upgrade(&mut rng),
             4 => gen_backpressure(&mut rng),
             5 => gen_handover(&mut rng),
             _ => gen_case(&mut rng, flavour),
